@@ -16,9 +16,12 @@ ID = 'C09'
 RULE = ('one history per case on ONE live object of the family named by the generator class: Background2D '
         '(random read orders of all public map/mesh/median/npixels attributes; filter_threshold none/below/'
         'inside/above the mesh range x Zoom/IDW interpolator x mask/coverage_mask/exclude_percentile/units/dtype), '
-        'pixel apertures (reads interleaved with re-assignment of every parameter), RadialProfile/CurveOfGrowth '
+        'pixel apertures (a pool of parent / indexed / sliced / iterated / copied apertures; reads with varying method '
+        'arguments interleaved with plain and augmented in-place (+=, -=, *=) updates of every parameter, every other pool '
+        'member re-judged after each update), RadialProfile/CurveOfGrowth '
         '(first reads interleaved with normalize/unnormalize), PSFPhotometry/IterativePSFPhotometry (repeated calls '
-        'with different data/init_params columns), star finders (repeated calls), Ellipse (fit_image sequences), '
+        'with different data/init_params columns, each followed by a sequence of make_model_image/make_residual_image '
+        'requests with varying shape/psf_shape/include_localbkg judged one by one), star finders (repeated calls), Ellipse (fit_image sequences), '
         'GriddedPSFModel (evaluation order/copy/deepcopy). Every returned value is compared exactly with the same '
         'single request on a freshly constructed object. non-trivial = the history contains >= 2 requests of which '
         'at least one follows a state-changing step (a first read of a lazy attribute, an assignment, a mutator or '
